@@ -11,8 +11,9 @@ use std::path::PathBuf;
 macro_rules! dispatch {
     ($id:expr, $w:ident => $body:expr) => {
         match $id {
-            "C02" | "C03" | "C04" | "C05" | "C11" => {
-                let lw = ledger::LedgerCheck { id: match $id { "C02" => "C02", "C03" => "C03", "C04" => "C04", "C05" => "C05", _ => "C11" } };
+            "C01" => { let $w = &ledger::determinism::C01; $body }
+            lid if ledger::static_id(lid).is_some() => {
+                let lw = ledger::LedgerCheck { id: ledger::static_id(lid).unwrap() };
                 let $w = &lw;
                 $body
             }
@@ -31,7 +32,7 @@ macro_rules! dispatch {
     };
 }
 
-pub const ALL: &[&str] = &["C02", "C03", "C04", "C05", "C11", "C12", "C13", "C14", "C15", "C17", "C18", "C19"];
+pub const ALL: &[&str] = &["C01", "C02", "C03", "C04", "C05", "C06", "C11", "C12", "C13", "C14", "C15", "C17", "C18", "C19"];
 
 fn usage() -> i32 {
     eprintln!("usage: verif-sim check <ID> [quick|thorough] | replay <file> | selftest [runs] | list");
@@ -109,6 +110,17 @@ fn real_main() -> i32 {
             code
         }
         "child-commit" => store::c19::child_commit(&args[1..]),
+        "run-digest" => {
+            // run-digest <ID> <seed> <run> <tier>
+            if args.len() < 5 {
+                return usage();
+            }
+            let seed: u64 = args[2].parse().unwrap_or(1);
+            let run: u64 = args[3].parse().unwrap_or(0);
+            let tier = if args[4] == "thorough" { Tier::Thorough } else { Tier::Quick };
+            let id = args[1].as_str();
+            dispatch!(id, w => driver::run_digest(w, seed, run, tier))
+        }
         _ => usage(),
     };
     simkit::remove_scratch_root();
